@@ -126,6 +126,8 @@ Fixpoint singular (fuel : nat) (full tag : bytes) {struct fuel} : option bool :=
     end
   end.
 
+Definition is_null_tag (t : bytes) : bool := match t with [c] => c =? 48 | _ => false end.   (* option_tag == "0" *)
+
 Section Visit.
 (** does the visitor take over a sequence of chars / a special struct? (ToStringVisitor + PrettyPrinter::printStruct);
     plain mserialize visitors never skip *)
@@ -157,6 +159,33 @@ Fixpoint seq_loop (etag : bytes) (n : nat) (l : bytes) (acc : list cb) : vres (l
             | VOk (cs, l') => seq_loop etag n' l' (acc ++ cs)
             | VErr e p => VErr e (acc ++ p)
             end
+  end.
+
+(** the same loop with a binary counter: once an element fails, the pending iterations are skipped, so a hostile count
+    of 2^32 costs the model what it costs the code (one failing read), not 2^32 Peano cells.
+    [VisitProofs.seq_loopN_eq] proves it equal to [seq_loop] at [N.to_nat size]. *)
+Definition seq_step (etag : bytes) (st : vres (list cb * bytes)) : vres (list cb * bytes) :=
+  match st with
+  | VOk (acc, l) => match rec etag l with
+                    | VOk (cs, l') => VOk (acc ++ cs, l')
+                    | VErr e p => VErr e (acc ++ p)
+                    end
+  | VErr e p => VErr e p
+  end.
+Fixpoint iter_sc (etag : bytes) (p : positive) (st : vres (list cb * bytes)) : vres (list cb * bytes) :=
+  match st with
+  | VErr e q => VErr e q
+  | VOk _ =>
+    match p with
+    | xH => seq_step etag st
+    | xO p' => iter_sc etag p' (iter_sc etag p' st)
+    | xI p' => seq_step etag (iter_sc etag p' (iter_sc etag p' st))
+    end
+  end.
+Definition seq_loopN (etag : bytes) (size : N) (l : bytes) (acc : list cb) : vres (list cb * bytes) :=
+  match (match size with N0 => VOk (acc, l) | Npos p => iter_sc etag p (VOk (acc, l)) end) with
+  | VOk (acc', l') => VOk (acc' ++ [CSeqEnd], l')
+  | VErr e p => VErr e p
   end.
 
 Fixpoint tuple_loop (n : nat) (t : bytes) (l : bytes) (acc : list cb) : vres (list cb * bytes) :=
@@ -226,7 +255,7 @@ Fixpoint visit (fuel : nat) (full tag : bytes) (l : bytes) {struct fuel} : vres 
                  | VOk (cs, r') => VOk ([CRepeatBegin size etag] ++ cs ++ [CRepeatEnd size etag; CSeqEnd], r')
                  | VErr e p => VErr e (CRepeatBegin size etag :: p)
                  end
-             | Some false => seq_loop (visit f full) etag (N.to_nat size) r []
+             | Some false => seq_loopN (visit f full) etag size r []
              end)
       end
     | 40 :: _ =>                                                      (* visit_tuple *)
@@ -241,13 +270,11 @@ Fixpoint visit (fuel : nat) (full tag : bytes) (l : bytes) {struct fuel} : vres 
         let t := N.iter disc (fun t => snd (tag_pop t)) inner in
         let (opt, _) := tag_pop t in
         prepend [CVariantBegin disc opt]
-          (match opt with
-           | [48] => VOk ([CNull; CVariantEnd], r)
-           | _ => match visit f full opt r with
-                  | VOk (cs, r') => VOk (cs ++ [CVariantEnd], r')
-                  | VErr e p => VErr e p
-                  end
-           end)
+          (if is_null_tag opt then VOk ([CNull; CVariantEnd], r)
+           else match visit f full opt r with
+                | VOk (cs, r') => VOk (cs ++ [CVariantEnd], r')
+                | VErr e p => VErr e p
+                end)
       end
     | 123 :: _ =>                                                     (* visit_struct *)
       let body := drop_last tag in
